@@ -42,6 +42,19 @@ def imm_step(world, base_step, sim, events):
         out.findings.append(("not_repeatable", "step", "stepping the same saved state twice with the same controller gave two different results"))
     if deep_fingerprint(sim) != fp0:
         out.findings.append(("pre_state_modified", "second_step", "the pre-state reads differently after stepping it a second time"))
+    # ... and an EARLIER saved state once more, now that this process has stepped other states in between (a handful of transitions
+    # are retained per process, one of them is re-stepped at every transition): whatever the library remembers from one call to the next
+    # -- per process, not per state -- has been refilled by other states meanwhile
+    kept = world.__dict__.setdefault("_retained_transitions", [])
+    calls = world.__dict__["_imm_calls"] = world.__dict__.get("_imm_calls", 0) + 1
+    if kept:
+        pre_k, ev_k, dig_k = kept[calls % len(kept)]
+        again, _ = base_step(pre_k, ev_k)
+        out.counts["earlier_state_stepped_again"] = 1
+        if digest(canon_sim_full(again)) != dig_k:
+            out.findings.append(("not_repeatable", "later_in_the_process", "a saved state stepped again after the process had stepped other states gave a different result than the first time"))
+    if len(kept) < 6 and calls in (1, 2, 5, 17, 65, 257):
+        kept.append((sim, events, digest(canon_sim_full(post))))
     if env_fingerprint(world.env) != efp0:
         out.findings.append(("shared_assets_modified", "step", "stepping changed the environment's shared assets (mechatronics / chargers / schedules / config): later steps of ANY saved state depend on it"))
     if not getattr(world, "_replaying", False) and carried is not None:
